@@ -16,8 +16,10 @@ Ops == {<<"gwreconf", "L", "", c[1], c[2]>> : c \in Cfgs} \cup {<<"newchan", "L"
        \cup {<<"chreconf", s, c, g[1], g[2]>> : s \in {"L", "R"}, c \in {"c", "d"}, g \in Cfgs}
        \cup {<<"probe", s, c, FALSE, FALSE>> : s \in {"L", "R"}, c \in {"c", "d"}}
        \cup {<<"setcb", s, c, FALSE, FALSE>> : s \in {"L", "R"}, c \in {"c", "d"}} \cup {<<"drop", "L", c, FALSE, FALSE>> : c \in {"c", "d"}}
+       \* Channel.reconfigure on a channel the peer has never heard of (a fresh newchannel()): nothing else changes anywhere
+       \cup {<<"orphanreconf", "L", "", g[1], g[2]>> : g \in {<<FALSE, TRUE>>, <<FALSE, FALSE>>}}
 Can(st, op) ==
-  CASE op[1] = "gwreconf" -> TRUE
+  CASE op[1] \in {"gwreconf", "orphanreconf"} -> TRUE
     [] op[1] = "newchan" -> S!CanNewChan(st)
     [] op[1] = "chreconf" -> S!CanChReconf(st, op[2], op[3])
     [] op[1] = "probe" -> S!CanProbe(st, op[2], op[3])
